@@ -27,8 +27,11 @@ def _u32(buf, word, what):
     return struct.unpack_from("<I", buf, 4 * word)[0]
 
 
-def decode(buf, shape_czyx, block_xyz, itemsize, want_layout=False):
-    """-> (nested list [c][z][y][x] of Python ints, info dict)"""
+def decode(buf, shape_czyx, block_xyz, itemsize, want_layout=False, strict_padding=False):
+    """-> (nested list [c][z][y][x] of Python ints, info dict)
+    strict_padding: also require the table entries referenced by padding voxels (block
+    positions outside the chunk) to lie inside the file - used when deciding whether a
+    *mutated* file must be accepted (a lenient reader may or may not look at them)."""
     buf = bytes(buf)
     C, Z, Y, X = shape_czyx
     bx, by, bz = block_xyz
@@ -78,6 +81,9 @@ def decode(buf, shape_czyx, block_xyz, itemsize, want_layout=False):
                                     bitpos = (xx + bx * (yy + by * zz)) * bits
                                     word = _u32(buf, vals + bitpos // 32, "encoded values")
                                     idx = (word >> (bitpos % 32)) & ((1 << bits) - 1)
+                                if strict_padding and not (gxp < X and gyp < Y and gzp < Z):
+                                    _u32(buf, table + idx * wpe + wpe - 1,
+                                         "lookup table entry of a padding voxel")
                                 if gxp < X and gyp < Y and gzp < Z:
                                     if idx > max_idx:
                                         max_idx = idx
